@@ -76,6 +76,17 @@ def main():
     meta_txt = os.path.join(src, "%s.meta.txt" % args.x)
     name = "%s-%s" % (args.prop, args.x)
     dst = os.path.join(VERIF, "seeded", name)
+    reval = args.src == "seeded"  # re-validate what is kept under /verif/seeded/<id>/ (e.g. after rebasing its patch)
+    if reval:
+        shutil.rmtree("/tmp/seedval/src-%s" % name, ignore_errors=True)
+        os.makedirs("/tmp/seedval/src-%s" % name)
+        src = "/tmp/seedval/src-%s" % name
+        shutil.copy(os.path.join(dst, "patch.diff"), os.path.join(src, "%s.patch.diff" % args.x))
+        if os.path.isdir(os.path.join(dst, "demo")):
+            shutil.copytree(os.path.join(dst, "demo"), os.path.join(src, "%s.demo" % args.x))
+        patch = os.path.join(src, "%s.patch.diff" % args.x)
+        demo = os.path.join(src, "%s.demo" % args.x)
+        meta_txt = os.path.join(src, "none")
     meta = {"id": name, "property": args.prop, "agent_notes": open(meta_txt).read() if os.path.exists(meta_txt) else "", "ran": []}
     prev_meta = {}
     if os.path.exists(os.path.join(dst, "meta.json")):
@@ -84,6 +95,12 @@ def main():
             for k in ("ran", "valid", "demo_discriminates", "check_rounds", "first_round_missed", "needs_to_manifest"):
                 if k in prev_meta:
                     meta[k] = prev_meta[k]
+    if reval and prev_meta:
+        meta["agent_notes"] = prev_meta.get("agent_notes", "")
+        for k in ("check_rounds", "first_round_missed"):
+            if k in prev_meta:
+                meta[k] = prev_meta[k]
+        meta["rebased"] = "patch rebased onto the later fix: commits in /repo and re-validated"
     if not os.path.exists(patch):
         print("no patch", patch)
         return 2
